@@ -14,7 +14,7 @@ def obligations(tier):
     obs += so.split('req', 2, 'xx x x\ny', nohdr=True)
     obs += so.split('req', 3, 'GET x\r\n', cuts=(1, 3, 4, 6))
     # response side, quick: line structure and field letters literal, the bytes the heuristics look at symbolic
-    obs += so.split('res', 1, 'ab\r\n\r\ny', cuts=(4, 5), kfs=['F1-lfcr-at-cut'], nostd=True, timeout=1200)
+    obs += so.split('res', 1, 'ab\r\n\r\ny', cuts=(4, 5), kfs=['F1-lfcr-at-cut'], nostd=True, timeout=1200, mem_gb=6)
     obs += so.split('res', 1, 'a:b\r\n c\r\n\r\ny', cuts=(5,), kfs=['C03-res-fold-at-cut'], kf_only=True, nostd=True)
     obs += so.split('res', 3, 'HTTPx\r\n', cuts=(2,), kfs=['C03-res-finalize-unread'], kf_only=True, nostd=True)
     obs += so.split('res', 3, 'HTTPx\r\n', cuts=(5, 6), nostd=True)
